@@ -77,6 +77,10 @@ func (ex *Ex) callbackCall(fr *Frame, st *State, ins ssa.Instruction, callee *ss
 	invs, cls := evalInvs(st)
 	for i, t := range invs {
 		name := fmt.Sprintf("%s#callback.%d.entry.%d", ex.topPrefix(fr), ord, cls[i].Ord)
+		if !ex.owesInvariant(fr, cls[i]) {
+			st.Assume(t)
+			continue
+		}
 		ex.oblige(fr, st, name, "loopentry", ex.clauseProps(fr, cls[i]), "callback invariant holds before the call of "+callee.Name()+": "+cls[i].Text, t, posOf(ins))
 	}
 	// preserve: one arbitrary call of the closure
@@ -111,6 +115,9 @@ func (ex *Ex) callbackCall(fr *Frame, st *State, ins ssa.Instruction, callee *ss
 			qinvs, qcls := evalInvs(s3)
 			for i, t := range qinvs {
 				name := fmt.Sprintf("%s#callback.%d.preserve.%d", ex.topPrefix(fr), ord, qcls[i].Ord)
+				if !ex.owesInvariant(fr, qcls[i]) {
+					continue
+				}
 				ex.oblige(fr, s3, name, "looppreserve", ex.clauseProps(fr, qcls[i]), "callback invariant is preserved by one call of the closure: "+qcls[i].Text, t, posOf(ins))
 			}
 		})
